@@ -1077,6 +1077,43 @@ def artefact_scenarios(rng=None, count=0):
     return scs
 
 
+# ---- several candidate configuration files present at once
+def candidate_scenarios(rng=None, count=0):
+    """run_generate looks at ./tauri.conf.json, src-tauri/tauri.conf.json, ../tauri.conf.json in this order; the first
+    EXISTING file decides: its plugins.typegen section if it has one, the defaults if it has none (search stops), and
+    only a file that cannot be parsed is skipped. Every candidate independently absent / without section / with a
+    section naming its own output directory / malformed (4^3 = 64 layouts), working directory app/pkg so that the
+    parent's file exists too; foreign reserved-named files wait in every directory any candidate names and in the
+    default one. Runs: CLI generate without flags, with -p only, the build script, generate again."""
+    kinds = ["absent", "nosection", "section", "malformed"]
+    combos = [(a, b, c) for a in kinds for b in kinds for c in kinds]
+    scs = []
+    for i in range(len(combos) if not rng else count):
+        r = rng or __import__("random").Random(900 + i)
+        ks = combos[i] if not rng else tuple(r.choice(kinds + ["section", "badlib"]) for _ in range(3))
+        files = {}
+        places = [("app/pkg/tauri.conf.json", "./out-cwd"), ("app/pkg/src-tauri/tauri.conf.json", "./out-crate"),
+                  ("app/tauri.conf.json", "./out-parent")]
+        for (path, out), k in zip(places, ks):
+            if k == "nosection":
+                files[path] = json.dumps({"productName": "x", "plugins": {"shell": {"open": True}}}, indent=1)
+            elif k == "section":
+                files[path] = tauri_conf("./src-tauri", out, r.choice(["none", "zod"]), r.random() < 0.3)
+            elif k == "badlib":
+                files[path] = tauri_conf("./src-tauri", out, "yup")
+            elif k == "malformed":
+                files[path] = '{"plugins": {"typegen": {"outputPath": "%s", ' % out
+        place_candidates(r, files, ["app/pkg/out-cwd", "app/pkg/out-crate", "app/pkg/out-parent", "app/pkg/src/generated",
+                                    "app/out-parent", "app/src/generated"], all_of_them=False)
+        runs = [{"entry": "generate", "variant": r.choice(["cmds", "events"]), "args": {}},
+                {"entry": "generate", "variant": "cmds2", "args": {"p": "./src-tauri"}},
+                {"entry": "build", "variant": None, "args": {}},
+                {"entry": "generate", "variant": None, "args": {"force": True}}]
+        scs.append({"name": "candidates-%d-%s" % (i, "-".join(ks)), "cwd": "app/pkg", "proj_dir": "app/pkg/src-tauri", "dirs": [],
+                    "files": files, "runs": runs, "tmpdir": "same"})
+    return scs
+
+
 def malformed_scenarios(rng, count):
     scs = []
     kinds = ["out-is-file", "out-blocked", "no-project", "bad-json", "bad-lib-in-conf", "missing-project-path",
